@@ -137,6 +137,10 @@ var specs = []spec{
 	{"opt/conda/conda-meta/x-1.0-0.json", "language/python/condameta/testdata", "", ""},
 	{"home/u/.vscode/extensions/extensions.json", "misc/vscodeextensions/testdata", "", ""},
 	{"var/www/wp-content/plugins/x/x.php", "misc/wordpress/plugins/testdata", "", ""},
+	// a file WITH the PE magic (MZ … PE\0\0), otherwise garbage: the .NET PE extractor goes all the way to GetRealPath and its
+	// clean-up with it, also on the virtual route (fix 01c65931: the clean-up removed "file" in the working directory)
+	{"app/Magic.dll", "", "", "#pe"},
+	{"app/Magic.exe", "", "", "#pe"},
 }
 
 
@@ -381,6 +385,16 @@ func main() {
 			if s.literal == "#missing" {
 				defaults[i] = '5'
 				contents[i] = []byte("\xd9\xd5\x05\xf9\x20\xa1\x63\xd7 stand-in for a rollback journal\n")
+			}
+			if s.literal == "#pe" {
+				b := make([]byte, 1024)
+				for k := range b {
+					b[k] = byte(k*7 + 3)
+				}
+				copy(b, "MZ")
+				b[0x3c], b[0x3d], b[0x3e], b[0x3f] = 0x80, 0, 0, 0
+				copy(b[0x80:], "PE\x00\x00")
+				contents[i] = b
 			}
 			if s.literal == "#wal-wal" || s.literal == "#wal-shm" {
 				defaults[i] = '5' // absent in the pristine tree: the groups put them there
